@@ -24,6 +24,8 @@ Definition trusted (table : list range) (ip : ip16) : bool := existsb (in_range 
 Definition s_xff : bytes := [88;45;70;111;114;119;97;114;100;101;100;45;70;111;114].            (* X-Forwarded-For *)
 Definition s_xfp : bytes := [88;45;70;111;114;119;97;114;100;101;100;45;80;111;114;116].        (* X-Forwarded-Port *)
 Definition s_xrip : bytes := [88;45;82;101;97;108;45;73;112].                                  (* X-Real-Ip *)
+Definition s_xfh : bytes := [88;45;70;111;114;119;97;114;100;101;100;45;72;111;115;116].        (* X-Forwarded-Host *)
+Definition s_xbfeip : bytes := [88;45;66;102;101;45;73;112].                                    (* X-Bfe-Ip *)
 Definition s_xrport : bytes := [88;45;82;101;97;108;45;80;111;114;116].                        (* X-Real-Port *)
 
 (* strconv.Atoi on short inputs: optional sign, then one or more digits *)
@@ -79,23 +81,26 @@ Definition append_elem (k v : bytes) (m : hmap) : hmap :=
   | None => hset k v m
   end.
 
-(* mod_header setDefaultHeader (the X-Forwarded-Host / X-Bfe-Ip parts are not observed) *)
-Definition set_default_header (peer : addr) (ca : option addr) (m : hmap) : hmap :=
-  let m1 := append_elem s_xff (a_text peer) m in
+(* mod_header setDefaultHeader: modHeaderForwardedAddr (X-Forwarded-Host when the request has a Host, X-Forwarded-For,
+   X-Forwarded-Port), setHeaderRealAddr when ClientAddr is set, setHeaderBfeIP (local address of the connection) *)
+Definition set_default_header (host local : bytes) (peer : addr) (ca : option addr) (m : hmap) : hmap :=
+  let m0 := match host with [] => m | _ => append_elem s_xfh host m end in
+  let m1 := append_elem s_xff (a_text peer) m0 in
   let m2 := append_elem s_xfp (dec_of_Z (a_port peer)) m1 in
-  match ca with
-  | Some a => hset s_xrport (dec_of_Z (a_port a)) (hset s_xrip (a_text a) m2)
-  | None => m2
-  end.
+  let m3 := match ca with
+            | Some a => hset s_xrport (dec_of_Z (a_port a)) (hset s_xrip (a_text a) m2)
+            | None => m2
+            end in
+  hset s_xbfeip local m3.
 
 Record result := mk_result { r_trusted : bool; r_caddr : option addr; r_headers : hmap }.
 
 (* the whole path for one request of a connection from [peer] *)
-Definition process (table : list range) (peer : addr) (pairs : list (bytes * bytes)) : result :=
+Definition process (host local : bytes) (table : list range) (peer : addr) (pairs : list (bytes * bytes)) : result :=
   let m := hdel s_host (parse_headers pairs) in
   let t := trusted table (a_ip peer) in
   let ca := set_client_addr t peer m in
-  mk_result t ca (set_default_header peer ca m).
+  mk_result t ca (set_default_header host local peer ca m).
 
 End WithParse.
 
